@@ -475,6 +475,10 @@ func c08R5(c *Ctx, r *Report) {
 					if isCall && (isCallTo(info, cl, lower.Obj) || isBoundsEntry(entries, info, cl) != nil) {
 						continue
 					}
+					// a compile-time constant emitted as such has not been narrowed
+					if ec := c.LookupFn(pkgMIRGen, "(*functionBuilder).emitConst"); isCall && ec != nil && isCallTo(info, cl, ec.Obj) {
+						continue
+					}
 					bad = exprStr(d)
 				}
 				r.Check(bad == "", rule, fn.Name(), key+" unconverted", c.pos(call.Pos()),
